@@ -46,6 +46,9 @@ func genC09(rt *rapid.T) C09Case {
 	o.constructed = 7
 	o.orphanRevs = true
 	o.faults = false
+	if rapid.IntRange(0, 2).Draw(rt, "noPrefix") == 0 {
+		o.maxOps = 0 // the constructed state itself is the state under test
+	}
 	c := C09Case{W: genWorld(rt, o), All: thorough()}
 	if !c.All {
 		for i := 0; i < 4; i++ {
@@ -104,6 +107,17 @@ func firstDiff(a, b string) string {
 	return ""
 }
 
+// weakProjection: what the spec alone determines (used when an interference fault really changed the world).
+func weakProjection(s *Sys) string {
+	p := project(s)
+	var claims []string
+	for _, c := range s.C.PVCs() {
+		claims = append(claims, c.Name)
+	}
+	sort.Strings(claims)
+	return fmt.Sprintf("%v claims=%v", p, claims)
+}
+
 func fullProjection(s *Sys) string {
 	p := project(s)
 	var claims []string
@@ -116,7 +130,22 @@ func fullProjection(s *Sys) string {
 	for _, pod := range s.C.PodsIn(NS) {
 		owners = append(owners, fmt.Sprintf("%s:%v", pod.Name, set != nil && isControlledBy(pod.OwnerReferences, set.UID)))
 	}
-	return fmt.Sprintf("%v claims=%v owned=%v", p, claims, owners)
+	// a run that differs from its twin by one fault only must also agree on what is history-dependent in
+	// general: the revision of every pod (also below the partition) and the current/update revisions
+	var revs []string
+	for _, pod := range s.C.PodsIn(NS) {
+		revs = append(revs, pod.Name+"@"+pod.Spec.Containers[0].Image)
+	}
+	cur, upd := "", ""
+	if set != nil {
+		if r := s.C.Rev(NS, set.Status.CurrentRevision); r != nil {
+			cur = revImage(r)
+		}
+		if r := s.C.Rev(NS, set.Status.UpdateRevision); r != nil {
+			upd = revImage(r)
+		}
+	}
+	return fmt.Sprintf("%v claims=%v owned=%v podTemplates=%v currentTemplate=%s updateTemplate=%s", p, claims, owners, revs, cur, upd)
 }
 
 // safetyMonitors runs the per-reconcile safety rules of C03, C04, C05, C07, C10 and C12 (bounds).
@@ -179,6 +208,7 @@ func runC09(rep Rep, c C09Case) {
 	}
 	twinOK := closeAndCheck(rep, twin)
 	twinProj := fullProjection(twin)
+	twinWeak := weakProjection(twin)
 
 	var positions []int
 	if c.All {
@@ -192,6 +222,16 @@ func runC09(rep Rep, c C09Case) {
 			if !seen[k] {
 				seen[k] = true
 				positions = append(positions, k)
+			}
+		}
+		// the sampled tier always adds the pod creates / deletes of the reconcile (at most 3): the calls after
+		// which partial work is most consequential
+		extra := 0
+		for i, a := range r0.Actions {
+			if a.Resource == "pods" && (a.Verb == "create" || a.Verb == "delete") && !seen[i+1] && extra < 3 {
+				seen[i+1] = true
+				positions = append(positions, i+1)
+				extra++
 			}
 		}
 	}
@@ -257,7 +297,16 @@ func runC09(rep Rep, c C09Case) {
 				}
 				ok := closeAndCheck(rep, f)
 				if ok && twinOK {
-					if p := fullProjection(f); p != twinProj {
+					// transient faults leave the world as it was: the recovered run must agree with its twin also on
+					// what is history-dependent in general (revision of every pod, current revision). An interference
+					// fault (a concurrent delete / create / write really happened) changes the history itself, so only
+					// what the spec determines is compared.
+					proj, want := fullProjection, twinProj
+					if !transient(kind) || (c.SecondKind != 0 && !transient(c.SecondKind)) {
+						proj, want = weakProjection, twinWeak
+					}
+					if p := proj(f); p != want {
+						twinProj := want
 						rep.Violate("recovery/final-state-differs", "%s: after recovery the system converged to\n  %s\nthe run without failures to\n  %s\n%s", desc, p, twinProj, f.Transcript())
 					}
 				}
